@@ -31,6 +31,14 @@ Theorem C20_iff_project : forall o p os ls nss,
   model_C20 p = Some (os, ls, nss) -> mem o os = project_uses o p.
 Proof. exact model_options. Qed.
 
+(** the formatters of a variable are a set: a formatter attached to ANY occurrence of a variable in a key (in the
+    default locale or in a locale merged later, first or last in the string) makes the key use its family, whatever
+    other formatters - of the same family, of the same input type, or none - the same variable carries *)
+Theorem C20_var_formatters_union : forall o ps v v' k f,
+  get_keys_inner ps v = Some v' -> In (PushVar k f) ps -> option_of_formatter f = Some o ->
+  iol_uses o v' = true.
+Proof. exact var_formatters_union. Qed.
+
 (** the locales (and namespaces) reported are the configured ones *)
 Theorem C20_locales : forall p os ls nss,
   model_C20 p = Some (os, ls, nss) ->
